@@ -17,6 +17,7 @@ NAMES = {
     'Chi2Calculator': ['gaddlemaps._backend', 'gaddlemaps'],
     'accept_metropolis': ['gaddlemaps._backend', 'gaddlemaps'],
     'minimize_molecules': ['gaddlemaps._backend', 'gaddlemaps._alignment', 'gaddlemaps'],
+    '_minimize_molecules': ['gaddlemaps._backend'],
     'guess_protein_restrains': ['gaddlemaps._alignment', 'gaddlemaps._manager', 'gaddlemaps'],
     'guess_residue_restrains': ['gaddlemaps._alignment', 'gaddlemaps'],
     'remove_hydrogens': ['gaddlemaps._alignment', 'gaddlemaps'],
